@@ -288,7 +288,7 @@ theorem C17_values_plain (cfg : Cfg) (e : EntryI) (v : Str) (h : e.WF cfg) (hv :
     simp only [List.cons_append, List.head?_cons]
     cases hh : (some v0 == some QUOTE)
     · rfl
-    · exact absurd (by simpa using hh) hv0.2
+    · exact absurd (by simpa using hh) hv0.2.1
   simp only [hq, Bool.false_eq_true, if_false]
   rw [splitOn_joinWith NL _ (by simp)]
   · simp only [List.map_cons, hmap, trim_id (v0 :: vs) hvh' hvl]
@@ -452,8 +452,8 @@ example : extValues (contValue exEntry3.expValue.1 exEntry3.cont) =
   · intro l hl
     simp only [exEntry3, List.mem_cons, List.not_mem_nil, or_false] at hl
     rcases hl with rfl | rfl
-    · exact ⟨⟨by decide, by decide, by decide, by decide, by decide, by decide⟩, by decide, by decide⟩
-    · exact ⟨⟨by decide, by decide, by decide, by decide, by decide, by decide⟩, by decide, by decide⟩
+    · exact ⟨⟨by decide, by decide, by decide, by decide, by decide, by decide, by decide⟩, by decide, by decide⟩
+    · exact ⟨⟨by decide, by decide, by decide, by decide, by decide, by decide, by decide⟩, by decide, by decide⟩
   · refine ⟨by decide, by decide, by decide, by decide, by decide, by decide, by decide, by decide, by decide, by decide, ?_, trivial⟩
     exact ⟨by decide, by decide, by decide, by decide⟩
 
